@@ -53,6 +53,6 @@ Fixpoint nh_agrees (ms : list meth) (wire : bytes) (nh : nhview) : bool :=
 Definition prop_ok (c : c03case) : bool :=
   match c with
   | C03Conn cfg date reqs wire closed nh =>
-      judge_conn (map (fun r => match r with (m, _, prog, _) => (m, prog) end) reqs) wire closed &&
+      judge_conn (c_noNorm cfg) (map (fun r => match r with (m, _, prog, _) => (m, prog) end) reqs) wire closed &&
       nh_agrees (map (fun r => match r with (m, _, _, _) => m end) reqs) wire nh
   end.
